@@ -1,17 +1,172 @@
-"""Per-property manifest texts."""
+"""Per-property manifest texts (tools/gen_manifest.py turns them into MANIFEST.json;
+a property is only claimed when sa/props/<id>.py exists)."""
+
+_T = "static analysis (ast, no execution): "
+_TRUST = "Trusted: CPython ast and the oracle tables under sa/. "
 
 CHECKS = {
+    "C01": {
+        "text": "Static rule check of the structural clauses that are necessary for source/IC10 equivalence: comparison tables and "
+                "their involution, polarity of every branch emitted for if/while under both values of the negation flag, aliasing "
+                "only for single-assignment values, pruning only under proven constness/unusedness, loop lowerings set their "
+                "continue/break labels and continue reaches the step code, range direction, operator->opcode rows, operand origin "
+                "and order at non-commutative sites. Decides these clauses for every program; does not decide trace equivalence.",
+        "design_ref": "DESIGN.md section 2, C01 (R01.a-h)",
+        "note": _TRUST + "Not decided: evaluation order of stitched fragments, used/const inference as a whole, the select-chain / "
+                "jump-table lowering, anything depending on program shape.",
+        "technique": _T + "emission-site extraction, value-set evaluation of opcode expressions under flag case splits, guard/dominator queries on a per-function CFG, table extraction",
+    },
+    "C02": {
+        "text": "Static rule check: directive scan dominates every option read; layout-only options and the output mode are read only "
+                "in the rendering layer; every inlining decision site reduces to the same predicate; both calling conventions have an "
+                "emission site for every role; the tail-call rewrite and the suppressed 'j ra' hang on the same flag. Structural "
+                "necessary conditions for option-independence, not the behavioural equivalence of 2^8 outputs.",
+        "design_ref": "DESIGN.md section 2, C02 (R02.a-e)",
+        "note": _TRUST + "Not decided: behavioural equivalence of outputs under different option vectors.",
+        "technique": _T + "option-read inventory over the call graph, boolean normalisation of inlining predicates, role coverage of emission sites under a flag case split",
+    },
+    "C03": {
+        "text": "Static rule check of every row of the operator tables (key operator = evaluator operator, opcode class = evaluator "
+                "class, bitwise rows evaluate on integers), of the math-function table (name is a math function of that arity and an "
+                "intrinsic of the same name), of the named constants, of the operand coercion, and of the guard under which a "
+                "constant is propagated through a variable. Decides table agreement for all rows, not numeric agreement on all doubles.",
+        "design_ref": "DESIGN.md section 2, C03 (R03.a-f)",
+        "note": _TRUST + "Not decided: IEEE corner cases (NaN, overflow, negative shift/modulus) of particular operands.",
+        "technique": _T + "table extraction and per-row comparison of the evaluator lambda's AST with an operator-semantics oracle",
+    },
+    "C04": {
+        "text": "Static rule check of the allocator: register universe is r0..r(K-1), K<=16; the index into the free list is dominated "
+                "by a raising bound test; lifetimes are half-open and the release test implies disjointness; loop widening is applied "
+                "to every node entering min/max; module-level values of every module get the unbounded lifetime; a scope's available "
+                "set subtracts all callers' blocked sets, transitively, and scopes are ordered after their callers; colouring sweeps "
+                "in order of lifetime start. Necessary conditions; soundness of line-interval lifetimes for a given program is not decided.",
+        "design_ref": "DESIGN.md section 2, C04 (R04.a-g)",
+        "note": _TRUST + "Not decided: whether line intervals over-approximate liveness of emitted code (needs liveness analysis of outputs).",
+        "technique": _T + "shape rules on register_assignment.py and IC10Register.lifetime with linear-normal-form implication and a taint rule (sanitizer get_loop_ancestor)",
+    },
+    "C05": {
+        "text": "Static rule check: the substitution pattern of remove_labels delimits whole operand tokens with respect to the label "
+                "alphabet derived from the repository's own label constructors; per handler every label used as operand is defined "
+                "exactly once; all loop lowerings set continue/break labels; all constructions of a function label agree on the "
+                "qualified name and transformation; get_label always advances its counter. Decides these clauses, not the line-by-line "
+                "equality of both label modes.",
+        "design_ref": "DESIGN.md section 2, C05 (R05.a-e)",
+        "note": _TRUST + "Not decided: collisions of user identifiers with opcodes/registers; whole-output relation between label modes.",
+        "technique": _T + "regex AST analysis (re._parser) against the extracted label alphabet, def/ref pairing of label variables over emission sites",
+    },
+    "C06": {
+        "text": "Static rule check: caller and callee agree on argument slot/ordering and result slot in both conventions; every branch "
+                "that inserts 'push ra' inserts 'pop ra'; the end label searched by the ra logic is the one the generator defines; "
+                "every exit form of compile_function is recognised by the needs-ra predicate; nested subroutine emitters save ra; the "
+                "restore sits after the end label. Necessary structure of the convention, not run-time stack balance.",
+        "design_ref": "DESIGN.md section 2, C06 (R06.a-f)",
+        "note": _TRUST + "Not decided: run-time stack-pointer balance along all paths.",
+        "technique": _T + "emission-site pairing across caller/callee handlers under the convention flag, linear normal form of slot expressions",
+    },
+    "C07": {
+        "text": "Static rule check of the gather pass: the main region is emitted first and a non-fall-through transfer separates it from "
+                "the first function region. The pinned tree has no such transfer (known finding, pinned by the reference files).",
+        "design_ref": "DESIGN.md section 2, C07 (R07.a-b)",
+        "note": _TRUST + "Not decided: whether a given program's main code terminates.",
+        "technique": _T + "ordering/must-pass-through rule on the gather loop with the ISA table saying which opcodes fall through",
+    },
+    "C08": {
+        "text": "Static rule check: calc_hash is CRC-32 of the UTF-8 bytes folded to signed 32 bit; compute_string packs big-endian in "
+                "forward order; number and symbolic spelling derive from one unmodified variable; _apply_output_mode returns the "
+                "spelling / the number by mode; format_enum prints name/value of one object; the mode is read only by the spelling "
+                "functions; enum numbers are unique. Decides token-level agreement per spelling function, not whole-output equality.",
+        "design_ref": "DESIGN.md section 2, C08 (R08.a-f)",
+        "note": _TRUST + "Not decided: agreement of enum numbers with the game's tables (not available offline).",
+        "technique": _T + "idiom recognition with reaching definitions on the spelling functions, reader inventory of the mode variable, enum table extraction",
+    },
     "C09": {
-        "text": "Static rule check over every construct through which text can reach the output: all 82 emission sites and 21 "
-                "operator-table rows are resolved to finite opcode sets and compared with an IC10 signature oracle (opcode exists, "
-                "operand count, output register); bool/None spellings are excluded by abstract dispatch of the operand class; the "
-                "version-note bound and the float precisions are decided on the source. It decides structural clauses that are "
-                "necessary for the property for every program, not the read-back of particular literals.",
+        "text": "Static rule check over every construct through which text can reach the output: all emission sites and operator-table "
+                "rows are resolved to finite opcode sets and compared with an IC10 signature oracle (opcode exists, operand count, "
+                "output register); bool/None spellings are excluded by abstract dispatch of the operand class; the version-note bound "
+                "and the float precisions are decided on the source. Necessary structural clauses for every program, not the read-back "
+                "of particular literals.",
         "design_ref": "DESIGN.md section 2, C09 (R09.a-d)",
-        "note": "Trusted: CPython ast; sa/isa.py (IC10 signatures written from the game's reference, name set cross-checked against "
-                "webapp/src/ic10.json on every run). Not decided: device-operand kinds, exact float read-back, text produced by a "
-                "user's @emit_code function.",
-        "technique": "static analysis: ast emission-site extraction + finite value-set evaluation of opcode expressions against an ISA table",
+        "note": _TRUST + "sa/isa.py is written from the game's reference and cross-checked against webapp/src/ic10.json on every run. "
+                "Not decided: device-operand kinds, exact float read-back, text produced by a user's @emit_code function.",
+        "technique": _T + "emission-site extraction + finite value-set evaluation of opcode expressions against an ISA table",
+    },
+    "C10": {
+        "text": "Static rule check: effect analysis of compile_code (every call outside a catch-all try is in a proven-total set on the "
+                "stated input domain), Compiler.compile is one try ending in a catch-all that returns an error dictionary; typestate "
+                "of the constexpr child process on a CFG with exception edges (reaped or killed+reaped on every exit, bounded wait); "
+                "a rejecting pass precedes code generation; audited while-loop inventory. Not wall-clock bounds.",
+        "design_ref": "DESIGN.md section 2, C10 (R10.a-e)",
+        "note": _TRUST + "Assumes the subprocess transport (no pyodide 'js' module). Not decided: timing, positions inside the text, termination in general.",
+        "technique": _T + "exception-containment effect analysis and child-process typestate on a hand-built CFG with exception edges",
+    },
+    "C11": {
+        "text": "Static rule check: inventory of every module-level binding written from the compile path with a per-binding obligation "
+                "(mode set per compile from options only, cache keyed by the executed text, hash set filled once from constants); "
+                "parameters options/src are never mutated; attribute stores on shared device singletons only on fresh copies or "
+                "audited sites; no in-place mutation of containers that came from parameters or cached constants.",
+        "design_ref": "DESIGN.md section 2, C11 (R11.a-d)",
+        "note": _TRUST + "Not decided: astroid's own caches; equality with a fresh process as a whole.",
+        "technique": _T + "global-write inventory over the call graph, alias/mutation analysis of parameters with reaching definitions",
+    },
+    "C12": {
+        "text": "Static rule check: a constexpr source is registered only after the rejecting validation whose regex covers open/eval/exec "
+                "as whole words; constexpr functions emit no code; in the evaluation-script template (parsed as Python) HASH is bound "
+                "to calc_hash last, identity decorators precede user code and json writer/reader are partners; the cache key is the "
+                "script text.",
+        "design_ref": "DESIGN.md section 2, C12 (R12.a-d)",
+        "note": _TRUST + "Not decided: survival of arbitrary argument expressions through as_string().",
+        "technique": _T + "dominance on the registration path, regex AST analysis, parsing the f-string script template as Python",
+    },
+    "C13": {
+        "text": "Static rule check: function code is appended only for the main region or called functions and never for constexpr "
+                "functions; __name__ folds to '__main__' only for the main scope; every access to the per-compile symbol/structure "
+                "tables is keyed by the qualified scope name; module-level values of every module get the unbounded lifetime.",
+        "design_ref": "DESIGN.md section 2, C13 (R13.a-d)",
+        "note": _TRUST + "Not decided: equivalence with the hand-merged single file.",
+        "technique": _T + "guard queries at the emission loop and fold site, keyed-access inventory of the storage tables",
+    },
+    "C14": {
+        "text": "Static rule check of mod_daemon: stdout redirected before any other import, saved handle used at one reply site, no "
+                "other route to fd 1, every child process gets its own stdout; every path through process_input after the empty-line "
+                "return passes exactly one reply (definite assignment into the finally, catch-all handler); the loop leaves only on "
+                "EOF/EXIT.",
+        "design_ref": "DESIGN.md section 2, C14 (R14.a-c)",
+        "note": _TRUST + "Not decided: behaviour under real pipes and signals; the C# client is read for context only.",
+        "technique": _T + "ownership rule for fd 1 plus exactly-one-reply path analysis on the CFG of process_input (finally copies, exception edges)",
+    },
+    "C15": {
+        "text": "Static rule check of the directive scanner: membership against the dataclass field set, '-'->'_' before the 'no_' test, "
+                "'#' guard on the stripped line of the main source, only the named attribute assigned with the polarity value, scan "
+                "before any option read, source order without break (last wins).",
+        "design_ref": "DESIGN.md section 2, C15 (R15.a-e)",
+        "note": _TRUST + "Not decided: equality of the two compilation results as a whole.",
+        "technique": _T + "dominance/ordering rules on compile_code with the CompileOptions fields parsed from the dataclass",
+    },
+    "C16": {
+        "category": "exploration",
+        "text": "Exhaustive enumeration, from the source text, of all generated structure classes (hash = own signed CRC-32 of the "
+                "prefab name, singular/plural pairing, logic-type and slot properties, named slots -> numbered slots), all enum "
+                "classes (no duplicate numbers) and all intrinsic wrappers (own opcode, operands in order, output iff the ISA oracle "
+                "says so). The whole statement is decided for the tables of the working tree.",
+        "design_ref": "DESIGN.md section 2, C16 (R16.a-e)",
+        "note": _TRUST + "Own CRC-32 (sa/crc.py, cross-checked against zlib at start-up); sa/isa.py for instruction signatures.",
+        "technique": _T + "exhaustive table extraction from the generated modules and cross-checking against an independent CRC-32 and the ISA oracle",
+    },
+    "C17": {
+        "text": "Static rule check: 'code', num_lines and num_bytes are computed from one final string by the stated formulas (linear "
+                "normal form len(s)+num_lines-1); every store into the allocation map is paired with an addition to the used set and "
+                "the returned set is the union over all scopes.",
+        "design_ref": "DESIGN.md section 2, C17 (R17.a-c)",
+        "note": _TRUST + "Decides the formulas and the pairing, for every program.",
+        "technique": _T + "reaching definitions + linear normal form on the statistics expressions, store/add pairing on the allocator's CFG",
+    },
+    "C18": {
+        "text": "Static rule check: the stage lists of encode_data and decode_data are inverse partners of a library inverse-pair table "
+                "with matching codecs; the character substitutions are inverse maps and remove exactly + / =; padding is restored as "
+                "(-len) mod 4.",
+        "design_ref": "DESIGN.md section 2, C18 (R18.a-c)",
+        "note": _TRUST + "Trusts the standard library pairs to be inverse; not decided: json round-trip of exotic values (NaN, non-string keys).",
+        "technique": _T + "stage extraction from both functions and pairing against an inverse-pair table",
     },
 }
 
